@@ -6,6 +6,7 @@ import (
 	"bufio"
 	"encoding/json"
 	"fmt"
+	"go/types"
 	"os"
 	"path/filepath"
 	"sort"
@@ -109,6 +110,15 @@ func selectFor(prop string, info *propertyInfo, db *SpecDB, fns map[string]*ssa.
 	for k, c := range db.Contracts {
 		for _, p := range c.Props {
 			if p == prop {
+				roots[k] = true
+			}
+		}
+	}
+	if len(roots) == 0 {
+		// a property about the whole API surface of its anchor files (no contract names it): every contract
+		// declared for a function of those files is checked
+		for k, f := range fns {
+			if c, ok := db.Contracts[k]; ok && !c.Inline && c.Trusted == "" && anchor[fileOf(f)] {
 				roots[k] = true
 			}
 		}
@@ -273,6 +283,7 @@ func writeEvidence(path string, prop string, cfg runConfig, res *runResult, sel 
 		"engine_errors":            res.errors,
 		"bounded":                  boundedOf(res),
 	}
+	cov["exported_without_contract"] = res.uncontracted
 	if len(res.bounded) > 0 {
 		cov["bounded_checks"] = res.bounded
 		b := cov["bounded"].([]string)
@@ -352,4 +363,130 @@ func boundedOf(res *runResult) []string {
 		}
 	}
 	return out
+}
+
+// uncontractedExported lists the exported functions / methods declared in the property's anchor files that
+// have no contract (so the property is not decided for them by this check).
+func uncontractedExported(info *propertyInfo, db *SpecDB, fns map[string]*ssa.Function, lr *loadResult, repo string) []string {
+	out := []string{}
+	if info == nil {
+		return out
+	}
+	anchor := map[string]bool{}
+	for _, f := range info.Anchors.Files {
+		anchor[filepath.Clean(f)] = true
+	}
+	for k, f := range fns {
+		if f.Synthetic != "" || f.Parent() != nil || f.Pos() == 0 {
+			continue
+		}
+		pos := lr.prog.Fset.Position(f.Pos())
+		rel, err := filepath.Rel(repo, pos.Filename)
+		if err != nil || !anchor[filepath.Clean(rel)] {
+			continue
+		}
+		if strings.HasSuffix(pos.Filename, "_test.go") || strings.Contains(filepath.Base(pos.Filename), "verif_") {
+			continue
+		}
+		name := f.Name()
+		if name == "" || name[0] < 'A' || name[0] > 'Z' {
+			continue
+		}
+		if recv := f.Signature.Recv(); recv != nil {
+			t := recv.Type().String()
+			if i := strings.LastIndex(t, "."); i >= 0 {
+				t = t[i+1:]
+			}
+			if t == "" || t[0] < 'A' || t[0] > 'Z' {
+				continue
+			}
+		}
+		if _, ok := db.Contracts[k]; !ok {
+			out = append(out, shortKeyName(k))
+		}
+	}
+	sort.Strings(out)
+	return out
+}
+
+// globalStoreScan: every store in the module whose address is (derived from) a package-level variable, outside
+// package initialisation.  For C20: package-level state is never written after initialisation.
+func globalStoreScan(lr *loadResult, modPath string) (scanned int, stores []string) {
+	rootGlobal := func(v ssa.Value) *ssa.Global {
+		for i := 0; i < 64; i++ {
+			switch x := v.(type) {
+			case *ssa.Global:
+				return x
+			case *ssa.FieldAddr:
+				v = x.X
+			case *ssa.IndexAddr:
+				v = x.X
+			case *ssa.Slice:
+				v = x.X
+			case *ssa.ChangeType:
+				v = x.X
+			case *ssa.Convert:
+				v = x.X
+			default:
+				return nil
+			}
+		}
+		return nil
+	}
+	isInit := func(f *ssa.Function) bool {
+		for g := f; g != nil; g = g.Parent() {
+			if g.Name() == "init" || strings.HasPrefix(g.Name(), "init#") || g.Synthetic == "package initializer" {
+				return true
+			}
+		}
+		return false
+	}
+	var visit func(f *ssa.Function)
+	seen := map[*ssa.Function]bool{}
+	visit = func(f *ssa.Function) {
+		if seen[f] {
+			return
+		}
+		seen[f] = true
+		scanned++
+		init := isInit(f)
+		for _, b := range f.Blocks {
+			for _, in := range b.Instrs {
+				if st, ok := in.(*ssa.Store); ok && !init {
+					if g := rootGlobal(st.Addr); g != nil {
+						stores = append(stores, fmt.Sprintf("%s stores to %s", f.String(), g.String()))
+					}
+				}
+				// slices of a global array handed to copy/append-style writers are covered by the frame checks
+			}
+		}
+		for _, a := range f.AnonFuncs {
+			visit(a)
+		}
+	}
+	for _, p := range lr.prog.AllPackages() {
+		if !strings.HasPrefix(p.Pkg.Path(), modPath) {
+			continue
+		}
+		for _, m := range p.Members {
+			switch x := m.(type) {
+			case *ssa.Function:
+				if pos := lr.prog.Fset.Position(x.Pos()); strings.HasSuffix(pos.Filename, "_test.go") {
+					continue
+				}
+				visit(x)
+			case *ssa.Type:
+				for _, t := range []types.Type{x.Type(), types.NewPointer(x.Type())} {
+					ms := lr.prog.MethodSets.MethodSet(t)
+					for i := 0; i < ms.Len(); i++ {
+						if f := lr.prog.MethodValue(ms.At(i)); f != nil && f.Pkg == p {
+							visit(f)
+						}
+					}
+				}
+			}
+		}
+	}
+	sort.Strings(stores)
+	return scanned, stores
 }
